@@ -20,6 +20,7 @@ const UNIT: Duration = Duration::from_secs(3600);
 pub struct Emb {
     pub pos: Vec<usize>,
     pub mask: U256,
+    pub mseed: u64,
     base: KBucketKey<Vec<u8>>,
     h: U256,
 }
@@ -35,7 +36,7 @@ impl Emb {
             r.fill(&mut bytes[..]);
             mask = U256::from_big_endian(&bytes);
         }
-        Emb { pos, mask, base, h }
+        Emb { pos, mask, mseed, base, h }
     }
     pub fn bits(&self) -> usize {
         self.pos.len()
@@ -402,11 +403,11 @@ fn metric_record(e: &Emb, a: u64, b: u64, c: u64, contiguous: bool) -> Value {
         json!({"a": a, "b": b, "c": c, "dab": e.abs_dist(dab.0), "dba": e.abs_dist(dba.0), "dac": e.abs_dist(dac.0),
                "dbc": e.abs_dist(dbc.0), "tri": tri, "fd": e.abs(&fd), "il": il, "bidx": bidx,
                "insok": matches!(ins, Ok(Inserted::Inserted)), "self": matches!(ins, Err(EntryState::SelfEntry)),
-               "B": e.bits(), "contig": contiguous})
+               "B": e.bits(), "contig": contiguous, "pos": e.pos, "mseed": e.mseed})
     });
     match r {
         Ok(v) => v,
-        Err(m) => json!({"a": a, "b": b, "c": c, "panic": m, "B": e.bits(), "contig": contiguous}),
+        Err(m) => json!({"a": a, "b": b, "c": c, "panic": m, "B": e.bits(), "contig": contiguous, "pos": e.pos, "mseed": e.mseed}),
     }
 }
 
@@ -429,7 +430,6 @@ fn metric(out: &mut Out, bits: usize, seed: u64, nrand: usize) {
         }
     }
     // wide records: random and edge 256-bit keys; only the relational laws, evaluated with U256 arithmetic
-    let e = Emb::new(vec![], 0);
     let edge = |rng: &mut rand::rngs::StdRng| -> U256 {
         match rng.gen_range(0..8) {
             0 => U256::zero(),
@@ -449,37 +449,58 @@ fn metric(out: &mut Out, bits: usize, seed: u64, nrand: usize) {
         if i % 7 == 0 {
             xb = xa;
         }
-        let r = vcommon::guard(|| {
-            let (ka, kb, kc) = (e.from_u256(xa), e.from_u256(xb), e.from_u256(xc));
-            let dab = ka.distance(&kb);
-            let dba = kb.distance(&ka);
-            let dac = ka.distance(&kc);
-            let dbc = kb.distance(&kc);
-            let (sum, ovf) = dab.0.overflowing_add(dbc.0);
-            let fd = ka.for_distance(dab);
-            let il = dab.ilog2();
-            let ilok = match il {
-                None => dab.0.is_zero(),
-                Some(i) => i < 256 && dab.0.bit(i as usize) && (i == 255 || (dab.0 >> (i as usize + 1)).is_zero()),
-            };
-            let mut t = Table::new(ka, NonZeroUsize::new(4).unwrap(), UNIT);
-            let ins = t.insert(&kb, NodeStatus::Connected);
-            let mut bidx = -1i64;
-            for j in 0..256 {
-                if !t.raw_bucket(j).0.is_empty() {
-                    bidx = j as i64;
-                }
+        out.ev(wide_record(xa, xb, xc));
+    }
+}
+
+fn hex(x: U256) -> String {
+    format!("{x:x}")
+}
+
+fn wide_record(xa: U256, xb: U256, xc: U256) -> Value {
+    let e = Emb::new(vec![], 0);
+    let r = vcommon::guard(|| {
+        let (ka, kb, kc) = (e.from_u256(xa), e.from_u256(xb), e.from_u256(xc));
+        let dab = ka.distance(&kb);
+        let dba = kb.distance(&ka);
+        let dac = ka.distance(&kc);
+        let dbc = kb.distance(&kc);
+        let (sum, ovf) = dab.0.overflowing_add(dbc.0);
+        let fd = ka.for_distance(dab);
+        let il = dab.ilog2();
+        let ilok = match il {
+            None => dab.0.is_zero(),
+            Some(i) => i < 256 && dab.0.bit(i as usize) && (i == 255 || (dab.0 >> (i as usize + 1)).is_zero()),
+        };
+        let mut t = Table::new(ka, NonZeroUsize::new(4).unwrap(), UNIT);
+        let ins = t.insert(&kb, NodeStatus::Connected);
+        let mut bidx = -1i64;
+        for j in 0..256 {
+            if !t.raw_bucket(j).0.is_empty() {
+                bidx = j as i64;
             }
-            json!({"wide": true, "eq": xa == xb, "zero": dab.0.is_zero(), "sym": dab == dba, "tri": ovf || dac.0 <= sum,
-                   "uni": (ka.for_distance(dab) == kb), "fdinv": fd == kb && ka.distance(&fd) == dab,
-                   "xor": dab.0 == (xa ^ xb), "ilok": ilok, "il": il.map(|x| x as i64).unwrap_or(-1), "bidx": bidx,
-                   "self": matches!(ins, Err(EntryState::SelfEntry)),
-                   "other_dist_differs": xb == xc || dab != dac})
-        });
-        match r {
-            Ok(v) => out.ev(v),
-            Err(m) => out.ev(json!({"wide": true, "panic": m})),
         }
+        json!({"wide": true, "eq": xa == xb, "zero": dab.0.is_zero(), "sym": dab == dba, "tri": ovf || dac.0 <= sum,
+               "uni": (ka.for_distance(dab) == kb), "fdinv": fd == kb && ka.distance(&fd) == dab,
+               "xor": dab.0 == (xa ^ xb), "ilok": ilok, "il": il.map(|x| x as i64).unwrap_or(-1), "bidx": bidx,
+               "self": matches!(ins, Err(EntryState::SelfEntry)),
+               "other_dist_differs": xb == xc || dab != dac,
+               "xa": hex(xa), "xb": hex(xb), "xc": hex(xc)})
+    });
+    match r {
+        Ok(v) => v,
+        Err(m) => json!({"wide": true, "panic": m, "xa": hex(xa), "xb": hex(xb), "xc": hex(xc)}),
+    }
+}
+
+fn metric_replay(out: &mut Out, rec: &Value) {
+    if rec.get("wide").is_some() {
+        let g = |k: &str| U256::from_str_radix(&vcommon::s(rec, k), 16).expect("hex");
+        out.ev(wide_record(g("xa"), g("xb"), g("xc")));
+    } else {
+        let bits = vcommon::n(rec, "B") as usize;
+        let e = Emb::new(pos_of(rec, bits), rec.get("mseed").and_then(|x| x.as_u64()).unwrap_or(0));
+        out.ev(metric_record(&e, vcommon::n(rec, "a") as u64, vcommon::n(rec, "b") as u64, vcommon::n(rec, "c") as u64, vcommon::b(rec, "contig")));
     }
 }
 
@@ -553,6 +574,15 @@ pub fn main(a: &vcommon::Args) {
         "metric" => {
             let mut out = Out::create(a.get(4));
             metric(&mut out, a.num(1) as usize, a.num(2), a.num(3) as usize);
+            println!("records={}", out.events);
+            out.finish();
+        }
+        "metric-replay" => {
+            let recs = vcommon::read_ndjson(a.get(1));
+            let mut out = Out::create(a.get(2));
+            for r in &recs {
+                metric_replay(&mut out, r);
+            }
             println!("records={}", out.events);
             out.finish();
         }
